@@ -194,6 +194,7 @@ C05_Q = [
 C05_T = [
     H("n5_resolve_s3", NSK + "resolve; shape default,default,p", [], cost=3),
     H("n5_pop_s3", NSK + "pop(); shape 3", [], cost=3),
+    H("n5_resolve_s4", NSK + "resolve; shape p-unbound,q", [], cost=3),
 ]
 
 C19_Q = [
